@@ -1,6 +1,8 @@
 // C10 harness: runs FlatMap / ParameterizedObject histories on the real code.
 // usage: harness <mode>   mode: ii | ss | sv   (FlatMap instantiation), P lines use ParameterizedObject
 // Input/outputs: see ocaml/C10/driver.ml (identical canonical form).
+#include <cstdio>
+#include <cstdlib>
 #include <iostream>
 #include <sstream>
 #include <string>
@@ -142,6 +144,26 @@ static long nameDec(const std::string &s) { return s[0] == 'a' ? (long)s.size() 
 static std::string nameEnc(long v) { return v <= 4 ? std::string((size_t)v, 'a') : "n" + std::to_string(v) + std::string(v % 25, 'z'); }
 static std::string strEnc(long v) { return "s" + std::to_string(v) + std::string(v % 33, 'w'); }
 
+// ---- setParam argument FORMS whose static type differs from what the Any stores (Model.store_of):
+//   4 string literal (const char[N], several N)   5 char array variable (char[8])   6 const char* variable
+//   7/8/9 a utility::Any holding int / float / std::string     10 an empty utility::Any
+//   11 short   12 enum   (0..3: int, float, std::string, vec3f as before)
+// stored-type tags for getParam<T> / the dump: 0 int 1 float 2 std::string 3 vec3f 4 const char* 5 short 6 enum
+enum C10Enum : int { C10_E0 = 0, C10_EMAX = 1000 };
+static char g_txt[256][8];      // static storage: the pointers stored in the Any stay valid
+static void initTxt() { for (int i = 0; i < 256; ++i) snprintf(g_txt[i], sizeof g_txt[i], "%d", i); }
+static const long LITS[4] = {7, 41, 305, 4096};
+
+static void setLiteral(utility::ParameterizedObject &po, const std::string &n, long v)
+{
+  switch (v) {                       // real literals of different array types at the call site
+  case 7: po.setParam(n, "7"); break;              // const char[2]
+  case 41: po.setParam(n, "41"); break;            // const char[3]
+  case 305: po.setParam(n, "305"); break;          // const char[4]
+  default: po.setParam(n, "4096"); break;          // const char[5]
+  }
+}
+
 static std::string runP(const std::vector<std::string> &ops)
 {
   PO po;
@@ -157,14 +179,26 @@ static std::string runP(const std::vector<std::string> &ops)
         if (t == 0) po.setParam<int>(n, (int)v);
         else if (t == 1) po.setParam<float>(n, (float)v + 0.5f);
         else if (t == 2) po.setParam<std::string>(n, strEnc(v));
-        else po.setParam<vec3f>(n, vec3f((float)v, (float)v + 1, (float)v + 2));
+        else if (t == 3) po.setParam<vec3f>(n, vec3f((float)v, (float)v + 1, (float)v + 2));
+        else if (t == 4) setLiteral(po, n, v);
+        else if (t == 5) po.setParam(n, g_txt[v & 255]);                                   // T deduced char[8]
+        else if (t == 6) { const char *ptr = g_txt[v & 255]; po.setParam(n, ptr); }          // T = const char*
+        else if (t == 7) { utility::Any a = (int)v; po.setParam(n, a); }                     // T = Any
+        else if (t == 8) { utility::Any a = (float)v + 0.5f; po.setParam(n, a); }
+        else if (t == 9) { utility::Any a = strEnc(v); po.setParam(n, a); }
+        else if (t == 10) { utility::Any a; po.setParam(n, a); }
+        else if (t == 11) po.setParam(n, (short)v);
+        else po.setParam(n, (C10Enum)v);
         o << "ok";
       } else if (f[0] == "get") {
         long t = std::stol(f[2]), d = std::stol(f[3]); std::string n = nameEnc(std::stol(f[1]));
         if (t == 0) o << "val=" << po.getParam<int>(n, (int)d);
         else if (t == 1) o << "val=" << (long)(po.getParam<float>(n, (float)d + 0.5f));
         else if (t == 2) o << "val=" << std::stol(po.getParam<std::string>(n, strEnc(d)).substr(1));
-        else o << "val=" << (long)po.getParam<vec3f>(n, vec3f((float)d, (float)d + 1, (float)d + 2)).x;
+        else if (t == 3) o << "val=" << (long)po.getParam<vec3f>(n, vec3f((float)d, (float)d + 1, (float)d + 2)).x;
+        else if (t == 4) o << "val=" << std::strtol(po.getParam<const char *>(n, (const char *)g_txt[d & 255]), nullptr, 10);
+        else if (t == 5) o << "val=" << (long)po.getParam<short>(n, (short)d);
+        else o << "val=" << (long)po.getParam<C10Enum>(n, (C10Enum)d);
       } else if (f[0] == "rm") { po.removeParam(nameEnc(std::stol(f[1]))); o << "ok"; }
       else if (f[0] == "reset") { po.resetAllParamQueryStatus(); o << "ok"; }
       else if (f[0] == "add") { po.findParam(nameEnc(std::stol(f[1])), true); o << "ok"; }
@@ -179,6 +213,9 @@ static std::string runP(const std::vector<std::string> &ops)
       else if (p.data.is<int>()) o << "0:" << p.data.get<int>();
       else if (p.data.is<float>()) o << "1:" << (long)p.data.get<float>();
       else if (p.data.is<std::string>()) o << "2:" << std::stol(p.data.get<std::string>().substr(1));
+      else if (p.data.is<const char *>()) o << "4:" << std::strtol(p.data.get<const char *>(), nullptr, 10);
+      else if (p.data.is<short>()) o << "5:" << (long)p.data.get<short>();
+      else if (p.data.is<C10Enum>()) o << "6:" << (long)p.data.get<C10Enum>();
       else if (p.data.is<vec3f>()) { auto v = p.data.get<vec3f>(); o << "3:" << (long)v.x; if (v.y != v.x + 1 || v.z != v.x + 2) o << "!VEC"; }
       else o << "?";
       if (p.query) o << "q";
@@ -194,6 +231,7 @@ static std::string runP(const std::vector<std::string> &ops)
 int main(int argc, char **argv)
 {
   std::string mode = argc > 1 ? argv[1] : "ii";
+  initTxt();
   if (argc > 2 && std::string(argv[2]) == "--table") {
     if (mode == "fd") std::cout << Wide<float, KeyFD>::table() << "\n";
     else if (mode == "hi") std::cout << Wide<short, KeyHI>::table() << "\n";
